@@ -791,7 +791,7 @@ class Two(_C06Base):
 
     def shapes(self, tier):
         out = []
-        L = 6 if tier == "quick" else 8
+        L = 6 if tier == "quick" else 9
         ovs = [1, 2] if tier == "quick" else [1, 2, 3]
         modes = [("cigar", 0)] + [("realign", ov) for ov in ovs]
         for mode, ov in modes:
@@ -805,7 +805,7 @@ class Two(_C06Base):
         return out
 
     def bounds(self, tier):
-        L = 6 if tier == "quick" else 8
+        L = 6 if tier == "quick" else 9
         return "reference of %d symbolic bases, read over the whole reference; ordered pairs of variant kinds from %s at all positions p1 <= p2; both listed / one of them an unlisted difference carried by the haplotype; all carried-allele combinations; without reference and with reference for overhang %s" % (L, CORE_KINDS, "1,2" if tier == "quick" else "1..3")
 
     def harness(self, e, shape, impl):
@@ -834,12 +834,12 @@ class Skip(_C06Base):
     required_cover = ["fully covered snv carried=alt", "fully covered ins carried=alt", "fully covered del carried=ref", "variant right after the skip", "variant right before the skip", "carried allele detected"]
 
     def shapes(self, tier):
-        L = 7 if tier == "quick" else 9
+        L = 7 if tier == "quick" else 10
         ovs = [1, 2] if tier == "quick" else [1, 2, 3]
         return [dict(mode=m, ov=ov, kind=k, h=h, L=L) for m, ov in [("cigar", 0)] + [("realign", o) for o in ovs] for k in CORE_KINDS for h in (0, 1)]
 
     def bounds(self, tier):
-        L = 7 if tier == "quick" else 9
+        L = 7 if tier == "quick" else 10
         return "reference of %d symbolic bases, read over the whole reference with one reference skip [a, b) of 1-2 bases at every place, one variant of each kind in %s at every position" % (L, CORE_KINDS)
 
     def harness(self, e, shape, impl):
@@ -875,7 +875,7 @@ class Paired(_C06Base):
     required_cover = ["fully covered snv carried=alt", "variant covered by the left mate only", "variant covered by the right mate only", "variant covered by both mates", "carried allele detected"]
 
     def shapes(self, tier):
-        L = 7 if tier == "quick" else 8
+        L = 7 if tier == "quick" else 9
         kinds = ["snv", "ins1", "del2"] if tier == "quick" else CORE_KINDS
         out = []
         for m, ov in [("cigar", 0), ("realign", 1)] + ([] if tier == "quick" else [("realign", 2)]):
@@ -886,7 +886,7 @@ class Paired(_C06Base):
         return out
 
     def bounds(self, tier):
-        L = 7 if tier == "quick" else 8
+        L = 7 if tier == "quick" else 9
         return "reference of %d symbolic bases; an SNV followed by a second variant; two mates [0, m1) and [m2, %d) in four layouts (apart, touching, overlapping, both over the whole reference); orientations %s; all carried-allele combinations" % (L, L, sorted(ORIENT))
 
     def harness(self, e, shape, impl):
